@@ -414,6 +414,13 @@ package sbom
 //@   invariant L4: [C15:inv] forall k string :: (k in siblings) ==> siblings[k] != nil && siblings[k].Id == k && (siblings[k] in elems(nl.Nodes))
 //@   invariant L4: [C15:inv] forall a int :: 0 <= a && a < len(newLoopNodes) ==> newLoopNodes[a] != nil && (newLoopNodes[a] in elems(nl.Nodes))
 //@   invariant L4: [C15:inv] forall a int :: 0 <= a && a < len(loopNodes) ==> loopNodes[a] != nil && (loopNodes[a] in elems(nl.Nodes))
+//@   ensures [C15:descendants:levelOne] maxDepth == 1 ==> (forall a int :: 0 <= a && a < len(result.Nodes) ==> result.Nodes[a].Id == id)
+//@   invariant L0: [C15:inv] 0 <= i && (maxDepth >= 1 ==> i <= maxDepth) && (i <= 1 ==> (forall k string :: (k in siblings) ==> k == id))
+//@   invariant L1: [C15:inv] i == 0 ==> len(loopNodes) == 1 && (forall k string :: (k in siblings) ==> k == id)
+//@   invariant L2: [C15:inv] i == 0 ==> (forall k string :: (k in siblings) ==> k == id)
+//@   invariant L3: [C15:inv] i == 0 ==> (forall k string :: (k in siblings) ==> k == id)
+//@   invariant L4: [C15:inv] i == 0 ==> (forall k string :: (k in siblings) ==> k == id)
+//@   invariant L5: [C15:inv] maxDepth == 1 ==> (forall k string :: (k in siblings) ==> k == id)
 //@   invariant L0: [C15:inv] i >= 1 ==> (id in siblings)
 //@   invariant L1: [C15:inv] (i >= 1 || _i >= 1) ==> (id in siblings)
 //@   invariant L1: [C15:inv] (i == 0 && _i == 0) ==> len(loopNodes) == 1 && loopNodes[0] == startNode
